@@ -238,7 +238,7 @@ def main(tier):
         exes[v] = build.ensure_thr(v)
     base = common.seed() * 1000
     jobs = []
-    stall = 12 if tier == "quick" else 25
+    stall = 20 if tier == "quick" else 30
     if tier == "quick":
         plan = [(2, 600), (4, 500), (8, 300)]
         reps = 3
